@@ -303,6 +303,12 @@ func (rt *Transfer) recvGenerator(idx int, f *File) error {
 		if rt.Opts.InfoGTE(rsyncopts.INFO_SKIP, 1) {
 			rt.Logger.Printf("skipping %s", local)
 		}
+		if !rt.Opts.PreservePerms {
+			// If we are not preserving permissions, then act as though
+			// the remote sent us the existing permissions (like
+			// openLocalFile does for files that are transferred).
+			f.Mode = f.Mode&^int32(os.ModePerm) | int32(st.Mode().Perm())
+		}
 		if err := rt.setPerms(f, fs.FileMode(f.Mode)); err != nil {
 			return err
 		}
